@@ -477,7 +477,7 @@ fn boundary_plan(rng: &mut Rng, w: &World, node: usize, p: &Profile) -> Option<V
     }
     let target = if rng.chance(3, 4) { rng.range(299, 302) as usize } else { rng.range(280, 320) as usize };
     let sel = match &o {
-        Op::SetPublicKey(_) => Some(info.pk.clone()),
+        Op::SetPublicKey(_) => Some((info.pk_kind, info.pk.clone())),
         _ => None,
     };
     for n in 0..300usize {
